@@ -128,7 +128,7 @@ func solveOne(ob *Oblig, file string, sec int, agree bool) {
 	ob.Output = strings.Join(parts, "\n")
 }
 
-func solveAll(obligs []*Oblig, outDir string, sec int, agree bool) {
+func solveAll(obligs []*Oblig, outDir string, sec int, agree bool, expectedFail map[string]bool) {
 	sem := make(chan struct{}, 6)
 	var wg sync.WaitGroup
 	cache := map[string]*Oblig{}
@@ -192,6 +192,11 @@ func solveAll(obligs []*Oblig, outDir string, sec int, agree bool) {
 	retried, nretry := false, 0
 	for i, ob := range obligs {
 		if ob.Canary || ob.Result != "timeout" || cache[ob.SMT] != ob {
+			continue
+		}
+		if expectedFail[ob.Name] {
+			// the obligation of an open known finding: it is expected not to be
+			// discharged (the recorded replay is re-run instead), so no second chance
 			continue
 		}
 		if nretry++; nretry > 3 {
